@@ -1,0 +1,19 @@
+//go:build verif
+
+package redis
+
+import (
+	"crypto/tls"
+	"net"
+)
+
+// VerifServeConn serves one caller-supplied connection synchronously through the real connection loop.
+// It exists only in builds with the "verif" tag and is used by the verification harness under /verif.
+func (server *Server) VerifServeConn(conn net.Conn, tlsState *tls.ConnectionState) error {
+	return server.receive(conn, tlsState)
+}
+
+// VerifListenersOpen reports whether the plain and the TLS listener fields are currently set.
+func (server *Server) VerifListenersOpen() (bool, bool) {
+	return server.portListener != nil, server.tlsPortListener != nil
+}
